@@ -110,7 +110,7 @@ theorem c19_ipsec_proposal_shape (c : IpsecIn) (o : IpsecOut) (h : loadIpsec c =
 theorem c19_ike_proposal_shape (c : IkeIn) (o : IkeOut) (h : loadIke c = .ok o) :
     ∃ e i p d, loadAlgs Gen.Config.encrTable ["aes256"] c.encr = .ok e ∧ loadAlgs Gen.Config.integTable ["sha256"] c.integ = .ok i ∧
       loadAlgs Gen.Config.prfTable ["sha256"] c.prf = .ok p ∧ loadAlgs Gen.Config.dhTable ["14"] c.dh = .ok d ∧
-      o.transforms = e ++ i ++ p ++ d ∧ o.lifetime = c.lifetime.getD 900 ∧ o.dpd = c.dpd.getD 60 := by
+      o.transforms = e ++ i ++ p ++ d ∧ o.transforms ≠ [] ∧ o.lifetime = c.lifetime.getD 900 ∧ o.dpd = c.dpd.getD 60 := by
   simp only [loadIke, bind] at h
   cases h1 : loadAlgs Gen.Config.encrTable ["aes256"] c.encr with
   | configurationError => simp [h1] at h
@@ -124,12 +124,16 @@ theorem c19_ike_proposal_shape (c : IkeIn) (o : IkeOut) (h : loadIke c = .ok o) 
         cases h4 : loadAlgs Gen.Config.dhTable ["14"] c.dh with
         | configurationError => simp [h1, h2, h3, h4] at h
         | ok d =>
-          cases h5 : loadProtect c.protect with
-          | configurationError => simp [h1, h2, h3, h4, h5] at h
-          | ok pr =>
-            simp only [h1, h2, h3, h4, h5, pure] at h
-            cases h
-            exact ⟨e, i, p, d, rfl, rfl, rfl, rfl, rfl, rfl, rfl⟩
+          simp only [h1, h2, h3, h4] at h
+          by_cases hemp : (e ++ i ++ p ++ d).isEmpty = true
+          · rw [if_pos hemp] at h; cases h
+          · rw [if_neg hemp] at h
+            cases h5 : loadProtect c.protect with
+            | configurationError => simp [h5] at h
+            | ok pr =>
+              simp only [h5, pure] at h
+              cases h
+              exact ⟨e, i, p, d, rfl, rfl, rfl, rfl, rfl, by simpa using hemp, rfl, rfl⟩
 
 /-- the loader model is total: it returns connections or the configuration error, nothing else (no other outcome exists in
     `CfgRes`; for arbitrary ill-typed dictionaries of the real loader this is checked by the exception-class oracle) -/
